@@ -209,7 +209,7 @@ def run(ctx):
     pd = prog.func("flow.record.base.Record._packdict")
     ctx.check("self.__slots__" in norm(pd) and "_pack()" in norm(pd), "R19.4", "Record._packdict", "_packdict does not pack every slot", pd, "every slot, FieldType values packed")
     for c in calls_in(av.tree, nested=True):
-        if isinstance(c.func, ast.Attribute) and c.func.attr == "timestamp" and not c.args:
+        if isinstance(c.func, ast.Attribute) and c.func.attr in ("timestamp", "total_seconds") and not c.args:
             ctx.fail("R19.4", "avro:timestamp()", f"`{norm(c)}`: float seconds on the Avro storage path", c, key="R19.4:avro:float-epoch")
     it = ctx.anchor_func("flow.record.adapter.avro.AvroReader.__iter__")
     conv = [n for n in ast.walk(it) if isinstance(n, ast.BinOp) and isinstance(n.op, ast.Add) and norm(n.left) == "EPOCH"]
